@@ -59,7 +59,7 @@ def programToCommands(program, getNumRegions=None):
     """
 
     seenWidthOp = False
-    vsIndex = 0
+    vsIndex = None  # the Private DICT's default until a vsindex operator is seen
     lenBlendStack = 0
     lastBlendIndex = 0
     commands = []
